@@ -148,8 +148,9 @@ def renderQ (ss : List SerS) : String :=
 def mergeBlocks (a b : List SerS) : List SerS :=
   b.foldl (fun acc s => s.2.foldl (fun acc p => addSample acc s.1 p.1 p.2) acc) a
 
+/-- `Head.Append` stores `lset.WithoutEmpty()`: a label with an empty value is an absent label. -/
 def parseApp? (ls t v : String) : Option (List (Bytes × Bytes) × Int × Nat) := do
-  let ls ← parseLbls? ls
+  let ls := (← parseLbls? ls).filter fun p => !p.2.isEmpty
   let t ← t.toInt?
   let v ← natOfHex? v
   pure (ls, t, v)
@@ -377,6 +378,7 @@ def step (st : St) (line : String) : St × String :=
   | ["app", ls, t, v] =>
     match st.bw, parseApp? ls t v with
     | some ss, some (ls, t, v) =>
+      if ls.isEmpty then (st, "err") else                 -- "empty labelset"
       -- memSeries.appendable: later than the last sample, or an exact duplicate of it
       match (ss.find? (·.1 = ls)).bind (·.2.getLast?) with
       | none => ({ st with bw := some (addSample ss ls t v) }, "ok")
